@@ -212,11 +212,24 @@ impl AsyncRead for ScriptRead {
                 }
                 _ => {
                     self.log.push(json!({"a": "err", "k": 0}));
-                    Poll::Ready(Err(io::Error::new(io::ErrorKind::Other, "scripted")))
+                    Poll::Ready(Err(io::Error::new(scripted_kind(), "scripted")))
                 }
             },
         }
     }
+}
+
+/// the transport's errors come in several kinds (whatever the kind, the error must be surfaced as a stream item)
+pub fn scripted_kind() -> io::ErrorKind {
+    use std::sync::atomic::{AtomicUsize, Ordering};
+    static N: AtomicUsize = AtomicUsize::new(0);
+    const KINDS: [io::ErrorKind; 6] = [io::ErrorKind::Other, io::ErrorKind::Interrupted, io::ErrorKind::ConnectionReset,
+        io::ErrorKind::TimedOut, io::ErrorKind::BrokenPipe, io::ErrorKind::UnexpectedEof];
+    KINDS[N.fetch_add(1, Ordering::Relaxed) % KINDS.len()]
+}
+pub fn is_scripted_kind(k: io::ErrorKind) -> bool {
+    matches!(k, io::ErrorKind::Other | io::ErrorKind::Interrupted | io::ErrorKind::ConnectionReset | io::ErrorKind::TimedOut
+        | io::ErrorKind::BrokenPipe | io::ErrorKind::UnexpectedEof)
 }
 impl AsyncWrite for ScriptRead {
     fn poll_write(self: Pin<&mut Self>, _: &mut Context<'_>, _: &[u8]) -> Poll<io::Result<usize>> {
@@ -254,7 +267,7 @@ impl<U: Decoder<Error = io::Error> + Unpin> Poller for Run<U> {
             Poll::Pending => ("pending", vec![]),
             Poll::Ready(None) => ("none", vec![]),
             Poll::Ready(Some(Ok(it))) => conv(it),
-            Poll::Ready(Some(Err(e))) if e.kind() == io::ErrorKind::Other => ("ioerr", vec![]),
+            Poll::Ready(Some(Err(e))) if is_scripted_kind(e.kind()) => ("ioerr", vec![]),
             Poll::Ready(Some(Err(e))) if e.kind() == io::ErrorKind::InvalidData => ("err", vec![]),
             Poll::Ready(Some(Err(_))) => ("err:other", vec![]),
         });
